@@ -173,3 +173,103 @@ theorem gss_spec (f : K → K) (phi mn mx : K) (iters : Nat) :
     exact this
 
 end M3d.Search
+
+/-! ### RecursiveLineSearch -/
+namespace M3d.Search
+
+variable {K : Type} [LinearOrder K]
+
+/-- The closure's running best, started from an already recorded evaluation `v0`. -/
+theorem trackFold_some (g : K → List K × K) (vs : List K) (v0 : K) :
+    ∃ v, (v = v0 ∨ v ∈ vs) ∧
+      vs.foldl (trackStep g) ((g v0).1, some (g v0).2)
+        = ((g v).1, some (g v).2) ∧ (g v0).2 ≤ (g v).2 ∧ ∀ w ∈ vs, (g w).2 ≤ (g v).2 := by
+  induction vs generalizing v0 with
+  | nil => exact ⟨v0, Or.inl rfl, rfl, le_refl _, by simp⟩
+  | cons c cs ih =>
+    simp only [List.foldl_cons, trackStep]
+    by_cases h : (g v0).2 < (g c).2
+    · simp only [if_pos h]
+      obtain ⟨v, hv, e, h1, h2⟩ := ih c
+      refine ⟨v, ?_, e, h.le.trans h1, ?_⟩
+      · rcases hv with rfl | hv
+        · exact Or.inr List.mem_cons_self
+        · exact Or.inr (List.mem_cons_of_mem _ hv)
+      · intro w hw
+        rcases List.mem_cons.mp hw with rfl | hw
+        · exact h1
+        · exact h2 w hw
+    · simp only [if_neg h]
+      obtain ⟨v, hv, e, h1, h2⟩ := ih v0
+      refine ⟨v, ?_, e, h1, ?_⟩
+      · rcases hv with rfl | hv
+        · exact Or.inl rfl
+        · exact Or.inr (List.mem_cons_of_mem _ hv)
+      · intro w hw
+        rcases List.mem_cons.mp hw with rfl | hw
+        · exact (not_lt.mp h).trans h1
+        · exact h2 w hw
+
+theorem trackBest_spec (g : K → List K × K) (init : List K) (vs : List K) (hne : vs ≠ []) :
+    ∃ v ∈ vs, trackBest g init vs = ((g v).1, some (g v).2) ∧ ∀ w ∈ vs, (g w).2 ≤ (g v).2 := by
+  cases vs with
+  | nil => exact absurd rfl hne
+  | cons c cs =>
+    obtain ⟨v, hv, e, h1, h2⟩ := trackFold_some g cs c
+    refine ⟨v, ?_, ?_, ?_⟩
+    · rcases hv with rfl | hv
+      · exact List.mem_cons_self
+      · exact List.mem_cons_of_mem _ hv
+    · simpa [trackBest, trackStep] using e
+    · intro w hw
+      rcases List.mem_cons.mp hw with rfl | hw
+      · exact h1
+      · exact h2 w hw
+
+variable [Add K] [Sub K] [Mul K] [Div K] [NatCast K]
+
+theorem lineTrace_ne_nil (stops recs : Nat) (hs : 0 < stops) (f : K → K) (a b : K) :
+    lineTrace stops recs f a b ≠ [] := by
+  have hg : gen1 stops (a, b) ≠ [] := by
+    obtain ⟨n, rfl⟩ : ∃ n, stops = n + 1 := ⟨stops - 1, by omega⟩
+    simp [gen1, List.range_succ]
+  cases recs with
+  | zero => simpa [lineTrace, trace] using hg
+  | succ r =>
+    simp only [lineTrace, trace]
+    intro h
+    exact hg (List.append_eq_nil_iff.mp h).1
+
+/-- The recursive line search returns an evaluated point whose value is at least the value of
+every point of the N-dimensional objective it evaluated (at any depth). -/
+theorem rls_spec (stops recs : Nat) (hs : 0 < stops) (f : List K → K) (mn mx : List K) (k : Nat)
+    (pre : List K) (d : Nat) :
+    ∃ y, (rlsMax stops recs f mn mx k pre d).2 = some y ∧
+      y = f (rlsMax stops recs f mn mx k pre d).1 ∧
+      (rlsMax stops recs f mn mx k pre d).1 ∈ rlsLeaves stops recs f mn mx k pre d ∧
+      ∀ p ∈ rlsLeaves stops recs f mn mx k pre d, f p ≤ y := by
+  induction k generalizing pre d with
+  | zero => exact ⟨f pre, rfl, rfl, by simp [rlsMax, rlsLeaves], by simp [rlsLeaves]⟩
+  | succ k ih =>
+    simp only [rlsMax, rlsLeaves]
+    set g : K → List K × K := fun v =>
+      ((rlsMax stops recs f mn mx k (setDim pre d v) (d + 1)).1,
+        (rlsMax stops recs f mn mx k (setDim pre d v) (d + 1)).2.getD ((0 : Nat) : K)) with hg
+    set vs := lineTrace stops recs (fun v => (g v).2) (mn.getD d ((0 : Nat) : K)) (mx.getD d ((0 : Nat) : K))
+    have hne : vs ≠ [] := lineTrace_ne_nil stops recs hs _ _ _
+    obtain ⟨v, hv, e, hmax⟩ := trackBest_spec g
+      ((List.zipWith (· + ·) mn mx).map (· * (((1 : Nat) : K) / ((2 : Nat) : K)))) vs hne
+    rw [e]
+    have hgv : ∀ w, (g w).2 = f (g w).1 ∧ (g w).1 ∈ rlsLeaves stops recs f mn mx k (setDim pre d w) (d + 1) ∧
+        ∀ p ∈ rlsLeaves stops recs f mn mx k (setDim pre d w) (d + 1), f p ≤ (g w).2 := by
+      intro w
+      obtain ⟨y, e1, e2, e3, e4⟩ := ih (setDim pre d w) (d + 1)
+      simp only [hg, e1, Option.getD_some]
+      exact ⟨e2, e3, e4⟩
+    refine ⟨(g v).2, rfl, (hgv v).1, ?_, ?_⟩
+    · exact List.mem_flatMap.mpr ⟨v, hv, (hgv v).2.1⟩
+    · intro p hp
+      obtain ⟨w, hw, hpw⟩ := List.mem_flatMap.mp hp
+      exact ((hgv w).2.2 p hpw).trans (hmax w hw)
+
+end M3d.Search
